@@ -233,3 +233,272 @@ fn lost_window_update_must_not_hang_the_sender() {
         });
     assert!(ok, "transfer hung after one lost window update");
 }
+
+// ---------------------------------------------------------------------------
+// Manual wire (public primitives: Net::enter / egress_all / deliver /
+// set_current) for schedules the rule-based fixtures cannot express.
+
+mod lab {
+    use std::future::Future;
+    use std::pin::Pin;
+    use std::task::{Context, Poll};
+    use std::time::Duration;
+
+    use tokio::task::LocalSet;
+    use turmoil_net::{EnterGuard, HostId, KernelConfig, Net, Packet};
+
+    pub struct Scoped<F> {
+        pub id: HostId,
+        pub inner: Pin<Box<F>>,
+    }
+    impl<F: Future> Future for Scoped<F> {
+        type Output = F::Output;
+        fn poll(mut self: Pin<&mut Self>, cx: &mut Context<'_>) -> Poll<F::Output> {
+            turmoil_net::set_current(self.id);
+            self.inner.as_mut().poll(cx)
+        }
+    }
+
+    pub struct Lab {
+        pub rt: tokio::runtime::Runtime,
+        pub set: LocalSet,
+        pub guard: EnterGuard,
+        pub client: HostId,
+        pub server: HostId,
+    }
+
+    impl Lab {
+        pub fn new(cfg: KernelConfig) -> Lab {
+            let mut net = Net::with_config(cfg);
+            let server = net.add_host("server");
+            let client = net.add_host("client");
+            let guard = net.enter();
+            let rt = tokio::runtime::Builder::new_current_thread()
+                .enable_time()
+                .start_paused(true)
+                .build()
+                .unwrap();
+            Lab { rt, set: LocalSet::new(), guard, client, server }
+        }
+        pub fn spawn<F: Future<Output = ()> + 'static>(&self, id: HostId, f: F) {
+            self.set.spawn_local(Scoped { id, inner: Box::pin(f) });
+        }
+        /// Run every task until all of them are parked.
+        pub fn settle(&self) {
+            self.rt.block_on(async { self.set.run_until(tokio::time::sleep(Duration::from_millis(1))).await });
+        }
+        /// Tasks to quiescence, then one egress pass on every host.
+        pub fn egress(&self) -> Vec<Packet> {
+            self.settle();
+            let mut out = vec![];
+            self.guard.egress_all(&mut out);
+            if std::env::var("REPRO_TRACE").is_ok() {
+                for p in &out {
+                    if let turmoil_net::Transport::Tcp(s) = &p.payload {
+                        eprintln!("egress {}:{} -> {} seq={} ack={} win={} len={} fin={} syn={}", p.src, s.src_port, s.dst_port, s.seq & 0xffff, s.ack & 0xffff, s.window, s.payload.len(), s.flags.fin, s.flags.syn);
+                    }
+                }
+                eprintln!("--");
+            }
+            out
+        }
+        pub fn deliver_all(&self, pkts: Vec<Packet>) {
+            for p in pkts {
+                self.guard.deliver(p);
+            }
+        }
+    }
+}
+
+fn seg(p: &Packet) -> &turmoil_net::TcpSegment {
+    match &p.payload {
+        Transport::Tcp(s) => s,
+        _ => panic!("tcp expected"),
+    }
+}
+
+/// Go-back-N rewinds snd_nxt to snd_una. If the peer's window is closed at
+/// that moment nothing is re-emitted, and ACKs for the original
+/// transmissions, which arrive later, were rejected as "acknowledging more
+/// than is in flight": the sender kept retransmitting bytes the receiver
+/// already had until it aborted with TimedOut; its FIN, queued behind those
+/// bytes, could never be sent again. One packet (the first FIN) is lost here.
+#[test]
+fn acks_for_segments_sent_before_a_retransmit_rewind_are_valid() {
+    use lab::Lab;
+    let cfg = KernelConfig::default().mtu(140).recv_buf_cap(100); // MSS 100
+    let lab = Lab::new(cfg);
+    let result: Rc<std::cell::RefCell<Option<std::io::Result<Vec<u8>>>>> = Rc::new(std::cell::RefCell::new(None));
+    let client_result: Rc<std::cell::RefCell<Option<std::io::Result<()>>>> = Rc::new(std::cell::RefCell::new(None));
+    let go_read = Rc::new(Cell::new(0usize));
+    {
+        let (result, go_read) = (result.clone(), go_read.clone());
+        lab.spawn(lab.server, async move {
+            let l = TcpListener::bind("0.0.0.0:9000").await.unwrap();
+            let (mut s, _) = l.accept().await.unwrap();
+            let mut got = Vec::new();
+            let mut buf = [0u8; 100];
+            loop {
+                // read only when the test says so (100 bytes at a time)
+                while go_read.get() == 0 {
+                    tokio::time::sleep(Duration::from_millis(1)).await;
+                }
+                go_read.set(go_read.get() - 1);
+                match s.read(&mut buf).await {
+                    Ok(0) => break,
+                    Ok(k) => got.extend_from_slice(&buf[..k]),
+                    Err(e) => {
+                        *result.borrow_mut() = Some(Err(e));
+                        return;
+                    }
+                }
+            }
+            *result.borrow_mut() = Some(Ok(got));
+        });
+    }
+    {
+        let client_result = client_result.clone();
+        lab.spawn(lab.client, async move {
+            let r = async {
+                let mut c = TcpStream::connect("server:9000").await?;
+                c.write_all(&[9u8; 300]).await?;
+                c.shutdown().await?;
+                let mut b = [0u8; 1];
+                let _ = c.read(&mut b).await?;
+                Ok(())
+            }
+            .await;
+            *client_result.borrow_mut() = Some(r);
+        });
+    }
+    // handshake
+    let syn = lab.egress();
+    lab.deliver_all(syn);
+    let synack = lab.egress();
+    lab.deliver_all(synack);
+    // client: handshake ACK + three 100-byte segments + FIN (initial window 65535)
+    let mut flight = lab.egress();
+    assert_eq!(flight.iter().filter(|p| seg(p).payload.len() == 100).count(), 3, "{flight:?}");
+    // deliver the handshake ACK and the first segment only; keep seg2 and seg3
+    // for later; the FIN behind them is the only packet this test loses
+    let mut rest = flight.split_off(2);
+    assert!(seg(&rest.pop().unwrap()).flags.fin);
+    lab.deliver_all(flight);
+    // server ACKs 100 bytes with window 0; client learns: 200 in flight, window closed
+    let acks = lab.egress();
+    lab.deliver_all(acks.into_iter().filter(|p| p.dst != p.src && seg(p).window == 0).collect());
+    // server application reads, the held segments arrive one by one; every
+    // server -> client packet from now on is held back on the wire
+    let mut held_acks = vec![];
+    for p in rest {
+        go_read.set(go_read.get() + 1);
+        held_acks.extend(lab.egress().into_iter().filter(|q| seg(q).src_port == 9000));
+        lab.guard.deliver(p);
+    }
+    // three more passes: the client's retransmit counter fires and rewinds
+    // snd_nxt; its view of the window is 0, so nothing is re-emitted
+    for _ in 0..3 {
+        held_acks.extend(lab.egress().into_iter().filter(|q| seg(q).src_port == 9000));
+    }
+    // now the ACKs for the original transmissions arrive
+    lab.deliver_all(held_acks);
+    // from here on the wire is perfect
+    go_read.set(1000);
+    for _ in 0..200 {
+        let out = lab.egress();
+        lab.deliver_all(out);
+        if result.borrow().is_some() && client_result.borrow().is_some() {
+            break;
+        }
+    }
+    let c = client_result.borrow_mut().take().expect("client never finished");
+    c.expect("client failed although only its first FIN was lost");
+    let r = result.borrow_mut().take().expect("server never saw EOF");
+    assert_eq!(r.expect("server read failed").len(), 300);
+}
+
+/// Retransmit attempts spent on the SYN were carried over to the first data
+/// segment: after two lost SYNs the first segment had only three retransmits
+/// left instead of retx_max = 5, so four losses of it (inside its own budget)
+/// aborted the connection with TimedOut.
+#[test]
+fn syn_retransmits_must_not_eat_the_data_retransmit_budget() {
+    let got = Rc::new(Cell::new(false));
+    let g2 = got.clone();
+    let r = ClientServer::new()
+        .server("server", async move {
+            let l = TcpListener::bind("0.0.0.0:9000").await.unwrap();
+            let (mut s, _) = l.accept().await.unwrap();
+            let mut b = [0u8; 1];
+            if s.read_exact(&mut b).await.is_ok() {
+                g2.set(true);
+            }
+            std::future::pending::<()>().await;
+        })
+        .run("client", async move {
+            let (mut syns, mut datas) = (0, 0);
+            rule(move |p: &Packet| {
+                let Transport::Tcp(s) = &p.payload else { return Verdict::Pass };
+                if s.flags.syn && !s.flags.ack && syns < 2 {
+                    syns += 1;
+                    return Verdict::Drop;
+                }
+                if !s.payload.is_empty() && datas < 4 {
+                    datas += 1;
+                    return Verdict::Drop;
+                }
+                Verdict::Pass
+            })
+            .forget();
+            let mut c = TcpStream::connect("server:9000").await?;
+            c.write_all(b"x").await?;
+            tokio::time::sleep(Duration::from_millis(40)).await;
+            // a second write observes an abort of the connection, if any
+            c.write_all(b"y").await?;
+            c.shutdown().await
+        });
+    r.expect("connection aborted although neither the SYN nor the segment exhausted its own budget");
+    assert!(got.get(), "server never received the byte");
+}
+
+/// The client's handshake ACK is lost but its first data segment (which also
+/// carries ACK) arrives: it completes the handshake on the server side. Its
+/// payload must be processed too instead of being thrown away and waiting for
+/// a retransmission.
+#[test]
+fn data_on_the_segment_that_completes_the_handshake_is_not_discarded() {
+    let sent = Rc::new(Cell::new(0u32));
+    let s2 = sent.clone();
+    let got = Rc::new(Cell::new(false));
+    let g2 = got.clone();
+    ClientServer::new()
+        .server("server", async move {
+            let l = TcpListener::bind("0.0.0.0:9000").await.unwrap();
+            let (mut s, _) = l.accept().await.unwrap();
+            let mut b = [0u8; 5];
+            if s.read_exact(&mut b).await.is_ok() && &b == b"hello" {
+                g2.set(true);
+            }
+            std::future::pending::<()>().await;
+        })
+        .run("client", async move {
+            let mut dropped = false;
+            rule(move |p: &Packet| {
+                let Transport::Tcp(s) = &p.payload else { return Verdict::Pass };
+                if !s.payload.is_empty() {
+                    s2.set(s2.get() + 1);
+                }
+                if !dropped && is_pure_ack(p) {
+                    dropped = true; // the handshake ACK
+                    return Verdict::Drop;
+                }
+                Verdict::Pass
+            })
+            .forget();
+            let mut c = TcpStream::connect("server:9000").await.unwrap();
+            c.write_all(b"hello").await.unwrap();
+            tokio::time::sleep(Duration::from_millis(30)).await;
+        });
+    assert!(got.get(), "server never received the data");
+    assert_eq!(sent.get(), 1, "the data segment had to be retransmitted although it was delivered");
+}
